@@ -25,6 +25,9 @@ mod android;
 #[cfg(test)]
 mod test_utils;
 
+#[cfg(feature = "verif-hooks")]
+pub mod verif;
+
 // Take all public items from the updater namespace and make them public.
 pub use self::updater::*;
 
